@@ -27,6 +27,10 @@ CovZero == [histories |-> 0, addSingle |-> 0, addAggregate |-> 0, aggStored |-> 
             holdsMoreThan32aggregatesOfOneData |-> 0, holdsMoreThan32datas |-> 0, holdsMoreThan32singles |-> 0,
             holdsMoreThan32syncMsgs |-> 0, holdsMoreThan32syncContribs |-> 0,
             holdsMoreThan128ps |-> 0, holdsMoreThan128as |-> 0, holdsMoreThan128ex |-> 0,
+            illFormedRefused |-> 0,
+            select |-> 0, selectNonEmpty |-> 0, selectMemberWithoutMessage |-> 0, selectOtherRoot |-> 0,
+            selectDuplicateMember |-> 0, selectEmptyMembers |-> 0, selectFiltersAndKeeps |-> 0,
+            packProbeAtt |-> 0, packProbeKeyed |-> 0, packProbeSync |-> 0, devSelectNilMember |-> 0,
             devAggNilMap |-> 0, devSearchNilAgg |-> 0, devSyncNilMap |-> 0]
 Bump(c, names) == [f \in DOMAIN c |-> IF f \in names THEN c[f] + 1 ELSE c[f]]
 If(b, name) == IF b THEN {name} ELSE {}
@@ -46,9 +50,12 @@ TraceAddAtt ==
       c0 == {o \in AttAddOutcomes(att, a) : o.ret = e.ret}
   IN
   /\ e.ev = "AddAtt"
-  /\ WellFormed(a)
   /\ UNCHANGED <<keyed, sync>>
-  /\ IF c0 # {}
+  /\ IF IllFormed(att, a)
+     THEN /\ e.ret \in {"err", "ok"}
+          /\ att' = [att EXCEPT !.datas = @ \cup {d}]
+          /\ cov' = Bump(cov, {"illFormedRefused"})
+     ELSE IF c0 # {}
      THEN \E o \in c0 :
             /\ att' = o.P2
             /\ cov' = Bump(cov, If(n = 1, "addSingle") \cup If(n > 1, "addAggregate")
@@ -161,6 +168,45 @@ TraceSyncReset ==
                            \cup If(sync.cur # -1 /\ (e.slot > sync.cur + 1 \/ e.slot < sync.cur - 1) /\ sync.held # {},
                                    "syncJump"))
 
+(* harness-side insert into a SyncCommitteeMessages map of its own (msgs[v] = message) *)
+TraceSelPut ==
+  LET e == Trace[l] IN
+  /\ e.ev = "SelPut"
+  /\ sync' = [sync EXCEPT !.sel = SelPutInto(@, e.v, e.root, e.id)]
+  /\ UNCHANGED <<att, keyed, cov>>
+
+TraceSelect ==
+  LET e    == Trace[l]
+      want == Select(sync.sel, e.root, e.members)
+      ms   == e.members
+      missing == \E x \in 1..Len(ms) : ~ \E m \in sync.sel : m.v = ms[x]
+  IN
+  /\ e.ev = "Select"
+  /\ UNCHANGED <<att, keyed, sync>>
+  /\ IF e.ret = "ok" /\ e.res = want
+     THEN cov' = Bump(cov, {"select"} \cup If(want # <<>>, "selectNonEmpty") \cup If(missing, "selectMemberWithoutMessage")
+                           \cup If(\E x \in 1..Len(ms) : \E m \in sync.sel : m.v = ms[x] /\ m.root # e.root, "selectOtherRoot")
+                           \cup If(\E x, y \in 1..Len(ms) : x # y /\ ms[x] = ms[y], "selectDuplicateMember")
+                           \cup If(ms = <<>>, "selectEmptyMembers")
+                           \cup If(want # <<>> /\ Len(want) < Len(ms), "selectFiltersAndKeeps"))
+     ELSE /\ e.ret = "panic"
+          /\ SelectDeviates(sync.sel, e.members)
+          /\ cov' = Bump(cov, {"select", "selectMemberWithoutMessage", "devSelectNilMember"})
+          /\ PrintT(<<"DEV", "SelectNilMember", e.job, l>>)
+
+(* Pack* / Packing are unimplemented upstream (stubs returning nothing): nothing to bind, except that the call     *)
+(* returns (ok: neither panic nor a lock left behind - the next call would time out) and leaves the pool as it is  *)
+TracePack ==
+  LET e == Trace[l] IN
+  /\ e.ev = "Pack"
+  /\ \/ e.ret = "implemented"      \* no longer a stub: the driver ends the history and the runner refuses to judge
+     \/ /\ e.ret = "ok"
+        /\ e.n = 0
+        /\ e.which \in {"contrib", "aggregate"} => SnapOK(e.snap, sync)
+  /\ UNCHANGED <<att, keyed, sync>>
+  /\ cov' = Bump(cov, If(e.which = "att", "packProbeAtt") \cup If(e.which \in {"ps", "as", "ex"}, "packProbeKeyed")
+                       \cup If(e.which \in {"contrib", "aggregate"}, "packProbeSync"))
+
 TraceEnd == /\ l = Len(Trace) + 1
             /\ PrintT(<<"COV", ToJson(cov)>>)
             /\ UNCHANGED <<att, keyed, sync, cov>>
@@ -169,7 +215,7 @@ TraceNext ==
   /\ l' = l + 1
   /\ Keep
   /\ \/ l <= Len(Trace) /\ (TraceNew \/ TraceAddAtt \/ TraceSearch \/ TracePrune \/ TraceAddKeyed \/ TraceAll
-                            \/ TraceSyncAdd \/ TraceSyncReset)
+                            \/ TraceSyncAdd \/ TraceSyncReset \/ TraceSelPut \/ TraceSelect \/ TracePack)
      \/ TraceEnd
 
 TraceAccepted ==
